@@ -378,6 +378,8 @@ func runC15(p params) error {
 			c15AddCase(out, "high-sequence-numbers", c15Input{PMTU: 1400, Suite: su, Sizes: []int{5, 6, 700, 8, 9, 10}, API: api, Dir: []string{"c2s", "s2c"}[(i+k)%2], SeqBase: base})
 		}
 	}
+	// configurations used through Config.Clone carry the fields this property depends on
+	cloneCases(out, []string{"dtlcp"}, map[string][]string{"dtlcp": {"PMTU"}})
 	return out.Finish()
 }
 
